@@ -42,6 +42,14 @@ Example roundtrip_default_example :
   load (write (ex_opts_f None false true true) ex_view) = Ok (erase (ex_opts_f None false true true) ex_view).
 Proof. vm_compute. reflexivity. Qed.
 
+(* a second run under any other option set: all 24 x 24 pairs *)
+Definition all_opts : list opts :=
+  flat_map (fun f => flat_map (fun h => flat_map (fun u => map (fun a => ex_opts_f f h u a) [true; false]) [true; false]) [true; false])
+           [Some true; Some false; None].
+Example wf_second_run_example :
+  forallb (fun o1 => forallb (fun o2 => wf_auto o1 ex_view && wf_auto o2 (erase o1 ex_view)) all_opts) all_opts = true.
+Proof. vm_compute. reflexivity. Qed.
+
 (* the round trip itself, computed *)
 Example roundtrip_example :
   load (write (ex_opts true true true true) ex_view) = Ok ex_view.
